@@ -69,5 +69,7 @@ def bures_distance(rho_1: np.ndarray, rho_2: np.ndarray, decimals: int = 10) -> 
     # Perform some error checking.
     if not np.all(rho_1.shape == rho_2.shape):
         raise ValueError("InvalidDim: `rho_1` and `rho_2` must be matrices of the same size.")
-    # Round fidelity to only 10 decimals to avoid error when :code:`rho_1 = rho_2`.
-    return np.sqrt(2.0 * (1.0 - np.round(fidelity(rho_1, rho_2), decimals)))
+    # Round fidelity to only 10 decimals to avoid error when :code:`rho_1 = rho_2`. Numerical error in the matrix square
+    # roots can still leave the fidelity slightly outside of [0, 1] (e.g. for rank-deficient states), so clip it.
+    fid = np.clip(np.round(fidelity(rho_1, rho_2), decimals), 0.0, 1.0)
+    return np.sqrt(2.0 * (1.0 - fid))
